@@ -811,6 +811,22 @@ pub fn check_journal(events: &[Event], prune_points: &[(usize, Vec<u32>, Vec<u32
                         rep.v("C11", "I1-job-id-reuse-after-prune", format!("pruned journal (prune at record {idx}) still mentions job {mj}; after a restart the next job id will be {}", r.job_id_counter));
                     }
                     rep.c("pruned_journals_id_checked", 1);
+                    // how often does a pruned journal name a worker only in a TaskStarted record?
+                    let connected: BTreeSet<u32> = evs.iter().filter_map(|e| match &e.payload {
+                        EventPayload::WorkerConnected(w, _) => Some(w.as_num()),
+                        _ => None,
+                    }).collect();
+                    for e in &evs {
+                        if let EventPayload::TaskStarted { worker_ids: workers, .. } = &e.payload {
+                            if workers.iter().any(|w| !connected.contains(&w.as_num())) {
+                                rep.c("pruned_journals.task_started_names_pruned_worker", 1);
+                                if workers.len() > 1 {
+                                    rep.c("pruned_journals.multinode_task_started_names_pruned_worker", 1);
+                                }
+                                break;
+                            }
+                        }
+                    }
                 }
                 if evs.len() < appended.len() {
                     rep.v("C12", "U1-appended-records-missing", format!("prune at record {idx}: {} records after prune+append of {}", evs.len(), appended.len()));
